@@ -31,6 +31,16 @@ CHECKS = {
          "Every parallel interface (extract_with_config on both code paths, ParallelArchive::*, multi-archive helpers) must return one slot per request in request order, each equal to the sequential read (bytes or error kind); skip_errors isolates a missing name to its own slot, without it the call fails as a whole; repeated calls (half under 16 busy threads) must be identical.",
          "The schedule is rayon's; scheduling independence is sampled, not proved. Thread count 0 / batch size 0 outside the domain.",
          "DESIGN.md §4 C09"),
+ "C06": ("exploration",
+         "model-based operation histories (bounded-exhaustive short sequences + generated long sequences) interpreted against MutableArchive and a BTreeMap model in supervised worker processes; own delta-debugging shrinker",
+         "Every sequence of length ≤3 (thorough ≤4) over a 12-letter alphabet on colliding names × 6 starting shapes, table-filling histories (more additions than hash slots), and 3 000 (thorough 40 000) generated histories of up to 60 operations are executed; after every reopen and at the end the archive is read through the read-only API and compared with the model for all 30 pool names (incl. case/slash aliases, a name that is a substring of another, names sharing a start slot) and with the listing. Ok operations update the model, Err operations must leave it unchanged; a worker exhausting 20 CPU-seconds on one history is a non-termination violation.",
+         "Reads through the still-open MutableArchive are not judged. V3/V4 starting archives are an open known finding (kept as 1-in-5 canaries). Liveness is decided as 'within 10^4× the honest cost'.",
+         "DESIGN.md §4 C06"),
+ "C15": ("exploration",
+         "proptest generators + deterministic grid; round trip through both parser generations; independent chunk walker / reference encoder; metamorphic conversion relation (convert-then-write equals native write)",
+         "Quick runs 222 grid/canary cases (11 versions × empty/one/many roots, groups, 49 conversion pairs) plus 40k random roots, 25k groups and 24k conversions (thorough 2.67M). Each root is written, parsed by both parser generations and compared field by field (floats bitwise) with the input; the second write is byte-compared; an independent walker transcribed from the WMO v17 description checks exact chunk tiling, MOHD counts against chunk/record sizes and list lengths, MOTX/MOGN/MODN offset resolution, MOGP extent and sub-chunk reference encodings; conversions must preserve content and serialise like the native target-version value.",
+         "Trusted: the transcription of record sizes/layouts from the wowdev description. 14 genuine writer/parser disagreements are open known findings (3 hit every root or group); the remaining clauses are evaluated on harness-repaired copies while the defect itself is measured on the raw bytes. Group second-write identity and liquid vertices are undecidable until a parser returns them.",
+         "DESIGN.md §4 C15"),
 }
 
 NOT_YET = "check not built yet in this round (planned in DESIGN.md §4); not claimed until it runs silently on the unchanged tree"
